@@ -43,14 +43,27 @@ MATS = {
     "lossy": dict(eps=_iso(8), mu=_diag(1, 2, 4), se=_diag(1, 2, 3), sm=[1, 1, 0, 1, 2, 0, 0, 0, 1]),
     "mcond": dict(eps=_iso(2), mu=_iso(4), se=Z9, sm=_iso(2)),
 }
+# 63 further pairwise distinct materials with diagonal permittivity (a, b, c), a, b, c in {1, 2, 4, 8}: exact inverses, so
+# the object on top of a cell is identifiable from the stored components even with 16 objects in one scene
+DIAGS = []
+for _a in (1, 2, 4, 8):
+    for _b in (1, 2, 4, 8):
+        for _c in (1, 2, 4, 8):
+            if (_a, _b, _c) != (1, 1, 1):
+                MATS[f"d{_a}{_b}{_c}"] = dict(eps=_diag(_a, _b, _c), mu=I9, se=Z9, sm=Z9)
+                DIAGS.append(f"d{_a}{_b}{_c}")
+TIE_SHAPE = (6, 6, 2)
 PLAIN = ["iso2", "iso4", "iso8"]
-ALLM = [m for m in MATS if m != "vac"]
+ALLM = [m for m in MATS if m != "vac" and m not in DIAGS]
 
 
 def model_check(ctx):
     ctx.mc("Painter", "MC_Painter_q.cfg" if ctx.quick else "MC_Painter_t.cfg", workers=6,
            label="volume + 3 objects, covers = all non-empty subsets of 3 (thorough 4) cells, orders {0,1,2}^3; all material assignments from a 7-kind catalogue")
-    ctx.mc_negative("Painter", "MC_Painter_neg.cfg", workers=4)
+    ctx.mc("Painter", "MC_Painter_ties.cfg" if ctx.quick else "MC_Painter_ties_t.cfg", workers=6,
+           label="volume + 5 (thorough 6) objects with placement orders in {0,1} (all tied, or two tie groups interleaved in every way), 3 mutually overlapping covers each")
+    ctx.mc_negative("Painter", "MC_Painter_neg.cfg", workers=4)    # ties painted in reverse list order
+    ctx.mc_negative("Painter", "MC_Painter_neg2.cfg", workers=4)   # ties resolved by an arbitrary permutation (non-stable sort)
     ctx.assumptions += [
         "material tensors are small integers whose inverses are multiples of 1/8, so the arrays are exact in float64 (deviation is sent and bounded by tol = 1000 ppb anyway)",
         "user placement orders are > -1000 (the volume's default), as the statement's 'the volume is lowest' presupposes",
@@ -72,10 +85,10 @@ def gen_cases(ctx):
     ctx.exhaustive = False
     n = 0
 
-    def scene(tag, objs, device=None):
+    def scene(tag, objs, device=None, shape=None):
         nonlocal n
         n += 1
-        return {"id": f"{tag}-{n}", "vol": "vac", "objs": objs, "device": device}
+        return {"id": f"{tag}-{n}", "vol": "vac", "objs": objs, "device": device, "shape": list(shape or SHAPE)}
 
     # A. three fully/partly overlapping objects, ALL 27 order assignments from {0,1,2}, shapes rotating
     fixed = [
@@ -89,6 +102,31 @@ def gen_cases(ctx):
         for i, (g, o) in enumerate(zip(perm, orders)):
             objs.append({**g, "ord": o, "mat": PLAIN[i], "extra": []})
         yield scene("orders", objs)
+    # D. many static objects sharing ONE placement order (9-16 mutually overlapping boxes, distinct materials, several
+    #    list permutations), and mixes of several tie groups: list order must break every tie, for any number of objects
+    def tie_box():
+        # every box contains the cells (2..3, 2..3, 0): all boxes overlap mutually
+        b = []
+        for _ in range(2):
+            b.append([rng.randrange(0, 3), rng.randrange(4, 7)])
+        b.append([0, rng.choice((1, 2))])
+        return b
+
+    sizes = (9, 12, 14, 16) if ctx.quick else (9, 10, 11, 12, 13, 14, 15, 16)
+    for nb in sizes:
+        boxes = [tie_box() for _ in range(nb)]
+        mats = rng.sample(DIAGS, nb)
+        for perm in range(2 if ctx.quick else 6):
+            idx = list(range(nb))
+            rng.shuffle(idx)
+            yield scene(f"ties{nb}", [{"kind": "box", "box": boxes[i], "ord": 0, "mat": mats[i], "extra": []} for i in idx], shape=TIE_SHAPE)
+    mixes = ((12, (0, 1)), (16, (0, 1, 2)), (15, (-2, 0, 0, 5)), (16, (3, 3, 3, 7)), (13, (0, 1)), (14, (1, 0, 0)), (16, (0, 1)), (12, (2, 4, 4)),
+             (9, (0, 1)), (16, (-1, -1, 0, 6)))
+    if not ctx.quick:
+        mixes = tuple((nb, g) for nb in (9, 10, 12, 14, 16) for g in ((0, 1), (0, 1, 2), (-2, 0, 0, 5), (3, 3, 3, 7), (1, 0, 0), (2, 4, 4)))
+    for nb, groups in mixes:
+        mats = rng.sample(DIAGS, nb)
+        yield scene(f"tiegroups{nb}", [{"kind": "box", "box": tie_box(), "ord": rng.choice(groups), "mat": mats[i], "extra": []} for i in range(nb)], shape=TIE_SHAPE)
     # B. material kinds: tier selection (every catalogue material alone, in pairs, as unused dictionary entry, in a Device)
     for m in ALLM:
         yield scene("kind1", [{"kind": "box", "box": [[1, 3], [0, 4], [0, 1]], "ord": 0, "mat": m, "extra": []}])
@@ -134,8 +172,9 @@ def observe(case):
     import numpy as np
     import fdtdx
 
+    shape = tuple(case.get("shape") or SHAPE)
     cfg = fdtdx.SimulationConfig(time=20e-15, grid=fdtdx.UniformGrid(spacing=SPACING), dtype=jnp.float64)
-    vol = fdtdx.SimulationVolume(name="vol", partial_grid_shape=SHAPE, material=_material(case["vol"]))
+    vol = fdtdx.SimulationVolume(name="vol", partial_grid_shape=shape, material=_material(case["vol"]))
     objs, cons = [vol], []
     used = [case["vol"]]
     for i, o in enumerate(case["objs"]):
@@ -160,14 +199,17 @@ def observe(case):
         used += list(case["device"])
         dev = fdtdx.Device(name="dev", partial_grid_shape=(1, 1, 1), materials=dm, param_transforms=[fdtdx.ClosestIndex()], partial_voxel_grid_shape=(1, 1, 1))
         objs.append(dev)
-        cons.append(dev.set_grid_coordinates(axes=(0, 1, 2), sides=("-", "-", "-"), coordinates=(3, 3, 1)))
+        cons.append(dev.set_grid_coordinates(axes=(0, 1, 2), sides=("-", "-", "-"), coordinates=tuple(x - 1 for x in shape)))
     oc, arrays, _, _, _ = fdtdx.place_objects(objs, cfg, cons)
 
     cat = sorted(set(used), key=used.index)
-    nx, ny, nz = SHAPE
-    lin = np.arange(nx * ny * nz).reshape(SHAPE) + 1
+    nx, ny, nz = shape
+    lin = np.arange(nx * ny * nz).reshape(shape) + 1
     rec_objs = []
-    for o in oc.static_material_objects:  # list order of the container (volume first)
+    # LIST ORDER = the order of the object_list handed to place_objects (volume first), which is what the statement's
+    # "list order breaks ties" refers to; placed objects are looked up by name
+    placed = {o.name: o for o in oc.static_material_objects}
+    for o in [placed[x.name] for x in objs if x.name in placed]:
         sl = tuple(slice(a, b) for a, b in o.grid_slice_tuple)
         if isinstance(o, fdtdx.UniformMaterialObject):
             cells = lin[sl].reshape(-1)
@@ -194,7 +236,7 @@ def observe(case):
     mu = arrays.inv_permeabilities
     tiers = {"eps": tier(arrays.inv_permittivities), "mu": tier(mu), "se": tier(arrays.electric_conductivity), "sm": tier(arrays.magnetic_conductivity)}
     rec = {
-        "id": case["id"], "shape": list(SHAPE), "scale": SCALE, "tol": 1000,
+        "id": case["id"], "shape": list(shape), "scale": SCALE, "tol": 1000,
         "mats": [MATS[k] for k in cat], "mat_names": cat, "objs": rec_objs, "tiers": tiers,
         "eps": enc(arrays.inv_permittivities, SCALE),
         "mu": enc(mu, SCALE) if tiers["mu"] else [],
@@ -203,6 +245,8 @@ def observe(case):
         "sm": enc(arrays.magnetic_conductivity, 1.0 / SPACING) if tiers["sm"] else [],
     }
     rec["dev"] = int(min(10**9, round(dev * 1e9)))
+    ords = [o["ord"] for o in rec_objs[1:]]
+    rec["max_tie_group"] = max([ords.count(x) for x in set(ords)] or [0])
     rec["overlap_cells"] = int(sum(1 for c in range(1, nx * ny * nz + 1) if sum(1 for o in rec_objs[1:] if c in o["cells"]) >= 2))
     return rec
 
@@ -221,5 +265,7 @@ def run(ctx):
         ctx.sample({k: v for k, v in r.items() if k not in ("eps", "mu", "se", "sm")})
     ctx.nontrivial = sum(1 for r in recs if r["overlap_cells"] > 0)
     ctx.extra_cov["scenes_with_cells_covered_by_2plus_objects"] = ctx.nontrivial
+    ctx.extra_cov["largest_tie_group_per_scene_max"] = max(r["max_tie_group"] for r in recs)
+    ctx.extra_cov["scenes_with_tie_group_of_9plus_overlapping_objects"] = sum(1 for r in recs if r["max_tie_group"] >= 9)
     ctx.extra_cov["tier_combinations_observed"] = sorted({f"{r['tiers']['eps']}/{r['tiers']['mu']}/{r['tiers']['se']}/{r['tiers']['sm']}" for r in recs})
     ctx.validate(*TRACE, recs, {c["id"]: c for c in inputs}, classify=classify, chunk=CHUNK)
